@@ -157,6 +157,8 @@ Section FirstLineSegment.
   Variable hasbreak : cell -> bool.
   (* len(rest) > 0 of uniseg.FirstLineSegmentInString(cell.Grapheme+next.Grapheme, -1) *)
   Variable pairbrk : cell -> cell -> option bool.
+  (* the mustBreak flag of that same call (meaningful when it leaves a rest) *)
+  Variable pairmust : cell -> cell -> bool.
 
   Fixpoint fls_go (first : bool) (i : nat) (cells : list cell) : option (nat * bool) :=
     match cells with
@@ -169,7 +171,7 @@ Section FirstLineSegment.
             else if hasbreak nx then Some (S (S i), true)
             else match pairbrk c nx with
                  | None => None
-                 | Some true => Some (S i, false)
+                 | Some true => Some (S i, pairmust c nx)
                  | Some false => fls_go false (S i) t
                  end
         end
@@ -245,13 +247,15 @@ Definition plain_run (W : Z) (input : list cell) (tbl : plain_tbl) :=
   run Z (plain_segf (length input) (tbl_orc tbl)) plain_reset cell_is_space cell_hasbreak plain_residue
       W input (-1).
 
-Definition pair_tbl := list ((list Z * list Z) * bool).
+Definition pair_tbl := list ((list Z * list Z) * (bool * bool)).
 Definition rpair_eqb (a b : list Z * list Z) : bool := zlist_eqb (fst a) (fst b) && zlist_eqb (snd a) (snd b).
 Definition tbl_pairbrk (tbl : pair_tbl) (a b : cell) : option bool :=
-  assoc rpair_eqb (c_runes a, c_runes b) tbl.
+  option_map fst (assoc rpair_eqb (c_runes a, c_runes b) tbl).
+Definition tbl_pairmust (tbl : pair_tbl) (a b : cell) : bool :=
+  match assoc rpair_eqb (c_runes a, c_runes b) tbl with Some (_, m) => m | None => false end.
 
 Definition rich_run (W : Z) (input : list cell) (tbl : pair_tbl) :=
-  run unit (rich_segf cell_hasbreak (tbl_pairbrk tbl)) (fun s => s) cell_is_space cell_hasbreak rich_residue
+  run unit (rich_segf cell_hasbreak (tbl_pairbrk tbl) (tbl_pairmust tbl)) (fun s => s) cell_is_space cell_hasbreak rich_residue
       W input tt.
 
 (* ---------- the property on one observation ---------- *)
@@ -372,11 +376,22 @@ Definition rich_B (hasbreak : cell -> bool) (pairbrk : cell -> cell -> option bo
            end
   end.
 
-(* rich: the text must break after a cell that ends with a line break *)
-Definition rich_Hd (hasbreak : cell -> bool) (input : list cell) (p : nat) : bool :=
+(* rich: the text must break after a cell that ends with a line break, and at a break
+   opportunity of the pair around it that uniseg reports as mandatory *)
+Definition rich_Hd (hasbreak : cell -> bool) (pairbrk : cell -> cell -> option bool)
+           (pairmust : cell -> cell -> bool) (input : list cell) (p : nat) : bool :=
   match p with
   | O => false
-  | S q => match nth_error input q with Some a => hasbreak a | None => false end
+  | S q => match nth_error input q with
+           | Some a =>
+               hasbreak a ||
+               match nth_error input p with
+               | Some b => negb (hasbreak b) && match pairbrk a b with Some true => true | _ => false end
+                           && pairmust a b
+               | None => false
+               end
+           | None => false
+           end
   end.
 
 (* ---------- the hypotheses of the theorems, decidable on a case ---------- *)
@@ -493,7 +508,7 @@ Definition rich_case_mismatch (k : rich_case) : bool :=
 Definition rich_case_violation (k : rich_case) : bool :=
   let '(input, tbl, (sp, bk), runs) := k in
   let B := rich_B cell_hasbreak (tbl_pairbrk tbl) input in
-  let Hd := rich_Hd cell_hasbreak input in
+  let Hd := rich_Hd cell_hasbreak (tbl_pairbrk tbl) (tbl_pairmust tbl) input in
   existsb (fun r : run_t => let '(W, obs, code) := r in
              negb ((code =? 0) && obs_nonneg obs &&
                    c16_ok_b cell_is_space (same_cells cell_is_space) B Hd W input (to_obs obs))) runs.
